@@ -21,6 +21,7 @@ require (
 	github.com/hashicorp/golang-lru v0.5.4 // indirect
 	gopkg.in/inf.v0 v0.9.1 // indirect
 	gopkg.in/sourcemap.v1 v1.0.5 // indirect
+	gopkg.in/yaml.v2 v2.3.0 // indirect
 )
 
 replace github.com/Comcast/rulio => /repo
